@@ -56,7 +56,7 @@ impl<'a> Tr<'a> {
     }
 
     pub fn apply_fn_raw(&mut self, f: &FnInfo, cg: &[Val], recv: Option<&Val>, args: &[&Expr], env: &Env, at: &Expr) -> R<(String, Ty)> {
-        if f.has_mut_params() || f.fuel {
+        if f.has_mut_params() || f.opt() {
             return Err(unsupported(at, &format!("call of `{}` (`&mut` parameters / fuel) in a position where its effects cannot be sequenced", f.key)));
         }
         let inherited = self.inherited_assoc(f, env);
@@ -435,6 +435,14 @@ impl<'a> Tr<'a> {
             }
         }
         let recv = self.pure(&m.receiver, env, None)?;
+        if ((name == "unwrap" && args.is_empty()) || (name == "expect" && args.len() == 1)) && matches!(recv.ty, Ty::Option(_) | Ty::Result(_, _)) {
+            // `unwrap()` / `expect(..)` panic on None / Err: translated at statement level of a partial function only
+            if !self.partial {
+                self.needs_partial = true;
+                return Err(unsupported(at, "`unwrap()` / `expect()` (panics: retry as a partial function)"));
+            }
+            return Err(unsupported(at, "`unwrap()` / `expect()` in a position where the panic cannot be sequenced (inside a closure or a pure operand): bind it with `let` first"));
+        }
         match recv.ty.clone() {
             Ty::Int(t) => self.int_method(&name, recv, t, m, &args, env, hint, at),
             Ty::Adt(n) => {
@@ -877,11 +885,10 @@ impl<'a> Tr<'a> {
                 Ok(Val { s: format!("(match {r} with | Some {p} => if {b} then {k} else None | None => None end)", r = recv.s, p = p, b = b.s, k = keep), ty: recv.ty.clone() })
             }
             ("copied", 0) | ("cloned", 0) | ("clone", 0) => Ok(recv),
-            ("unwrap", 0) if !self.fuel => {
-                // in a function that is fuelled anyway (result in `option`) unwrap on None gives None: try that
-                self.needs_fuel = true;
-                self.unwrap_retry = true;
-                Err(unsupported(at, "`unwrap()` (panics; only translated in a fuelled function, where None = no value)"))
+            ("unwrap", 0) | ("expect", 1) if !self.partial => {
+                // `unwrap()` panics on None: the function is partial (result in `option`, None = panic)
+                self.needs_partial = true;
+                Err(unsupported(at, "`unwrap()` (panics: retry as a partial function)"))
             }
             _ => Err(unsupported(at, &format!("Option method `{}` (not in the whitelist; unwrap/expect panic and are not translated)", name))),
         }
